@@ -61,12 +61,15 @@ def replay(path, quiet=False):
         else:
             print(f"  detail={hit[0][2]}")
         return 1
-    if rp.get("label") == "no-unexpected-exception" and ctx.failed:
-        # the symbolic run stopped at an operation on this path; on the solver's input for that path the real code
-        # completes and breaks an obligation of the harness: a reproduced violation all the same
+    if ctx.failed:
+        # the obligation the solver's input was produced for holds on the real code (the symbolic run over-approximated
+        # or could not complete this path), but on that very input another obligation of the harness fails concretely:
+        # a reproduced violation all the same, reported under the obligation that fails
+        f0 = ctx.failed[0]
         print(f"VIOLATION property={rp['property']} replay={path}")
-        print(f"  on the input of a path the symbolic run could not complete ({rp['cls']}), obligation "
-              f"{ctx.failed[0][0]!r} (class {ctx.failed[0][1]}) fails on the real code; detail={ctx.failed[0][2]}")
+        print(f"  concrete-failure label={f0[0]} ||cls={f0[1]}||")
+        print(f"  on the input found for {rp['label']!r} ({rp['cls']}), obligation {f0[0]!r} (class {f0[1]}) fails on the real code; "
+              f"detail={f0[2]}")
         return 1
     print(f"not reproduced: obligation {rp['label']!r} holds concretely "
           f"(failed concretely: {[f[0] for f in ctx.failed]})")
